@@ -23,6 +23,10 @@ demonstration (passes on the unchanged tree, fails with the patch), confirms the
 the patch, applies the patch in a scratch worktree, runs `./check <property> quick` (then `thorough` if quick
 exits 0) and records the outcome; nothing is ever committed to `/repo`.
 
+The translator alone (regenerated `Gen` files differ from the unchanged tree's, or a fact is not found) sees 22 of
+the {n}: the changes to tables, dispatch arms, constants, lock order and helper functions; the other 78 keep every
+generated definition and are decided by the correspondence run and the property predicates.
+
 What each round's first run missed, and what was strengthened (all {n} are caught by the quick tier now, with a
 concrete failing input except where the table below says otherwise; `result.json` holds the re-run):
 
